@@ -23,7 +23,7 @@ pub struct Case {
 
 fn base_scenario(prog: &Program, leader: usize, out_mask: &[bool], inputs: &[u64], strategy: Strategy, comp_id: u128) -> Scenario {
     let pols = (0..prog.parties).map(|p| server::policy_for(prog, comp_id, p, leader, inputs[p], out_mask[p])).collect();
-    Scenario { policies: vec![pols], concurrency: 2, strategy, gate_msgs: true, fail_rpc: None, injections: vec![], skip_schedule: vec![], max_steps: 20_000 }
+    Scenario { policies: vec![pols], concurrency: 2, strategy, gate_msgs: true, fail_rpc: None, injections: vec![], skip_schedule: vec![], max_steps: 20_000, fail_outputs: false }
 }
 
 /// number of idle points of the undisturbed run (for "inject at every point k")
@@ -167,6 +167,34 @@ pub fn cases_c15(tier: &str, seed: u64) -> Vec<Case> {
                         let mut sc = base.clone();
                         sc.injections = vec![(When::Step(k), Inject::Cancel { comp: 0, party })];
                         v.push(Case { prop: "C15", key: format!("{} L{} gated={} step{} cancel p{}", prog.name, leader, gate_msgs, k, party), sc, progs: vec![(*prog).clone()], inputs: vec![inputs.clone()], out_masks: vec![mask.clone()], leaders: vec![leader], mismatch: None });
+                    }
+                }
+            }
+        }
+    }
+    // cancel while a consts call is in flight that later fails (the detached consts task must not
+    // notify the destination after cancel() has returned)
+    {
+        let prog = &progs[3];
+        let n = 2;
+        for leader in 0..n {
+            let mask = vec![true, true];
+            let inputs = vec![(seed % 200) + 1, 77];
+            let base = base_scenario(prog, leader, &mask, &inputs, Strategy::Script(vec![]), 0x15c00);
+            let steps = pilot_steps(&base);
+            for k in 0..=steps.min(14) {
+                for party in 0..n {
+                    for which in 0..2 {
+                        for script in [vec![], vec![0, 0, 0, 1], vec![0, 0, 1, 1, 1]] {
+                            if !thorough && !script.is_empty() && (k + party + which) % 2 == 1 {
+                                continue;
+                            }
+                            let mut sc = base.clone();
+                            sc.strategy = Strategy::Script(script.clone());
+                            sc.fail_rpc = Some((RpcKind::Consts, which));
+                            sc.injections = vec![(When::Step(k), Inject::Cancel { comp: 0, party })];
+                            v.push(Case { prop: "C15", key: format!("{} L{} step{} cancel p{} failing-consts#{} script{:?}", prog.name, leader, k, party, which, script), sc, progs: vec![prog.clone()], inputs: vec![inputs.clone()], out_masks: vec![mask.clone()], leaders: vec![leader], mismatch: None });
+                        }
                     }
                 }
             }
@@ -360,8 +388,8 @@ pub fn cases_c17(tier: &str, seed: u64) -> Vec<Case> {
         if i % 5 == 4 {
             injections.push((When::Step(rng.random_range(0..30)), Inject::Cancel { comp: rng.random_range(0..batch), party: rng.random_range(0..2) }));
         }
-        let sc = Scenario { policies: pols, concurrency, strategy: Strategy::Random(seed ^ (i as u64).wrapping_mul(0x9e3779b97f4a7c15)), gate_msgs: i % 2 == 0, fail_rpc: fail, injections, skip_schedule: vec![], max_steps: 60_000 };
-        v.push(Case { prop: "C17", key: format!("batch{batch} conc{concurrency} fail={} cancel={}", fail.map(|(k, _)| format!("{k:?}")).unwrap_or("none".into()), i % 5 == 4), sc, progs: ps, inputs, out_masks: masks, leaders, mismatch: None });
+        let sc = Scenario { policies: pols, concurrency, strategy: Strategy::Random(seed ^ (i as u64).wrapping_mul(0x9e3779b97f4a7c15)), gate_msgs: i % 2 == 0, fail_rpc: fail, injections, skip_schedule: vec![], max_steps: 60_000, fail_outputs: i % 7 == 3 };
+        v.push(Case { prop: "C17", key: format!("batch{batch} conc{concurrency} fail={} cancel={} dest-unreachable={}", fail.map(|(k, _)| format!("{k:?}")).unwrap_or("none".into()), i % 5 == 4, i % 7 == 3), sc, progs: ps, inputs, out_masks: masks, leaders, mismatch: None });
     }
     // the two single-computation shapes named in the property, for every failing RPC kind and output choice
     for kind in [RpcKind::Validate, RpcKind::Run, RpcKind::Consts] {
@@ -373,7 +401,16 @@ pub fn cases_c17(tier: &str, seed: u64) -> Vec<Case> {
                 let mut sc = base_scenario(prog, leader, &mask, &inp, Strategy::Script(vec![]), 0x17f00);
                 sc.concurrency = 1;
                 sc.fail_rpc = Some((kind, 0));
-                v.push(Case { prop: "C17", key: format!("single fail={kind:?} url={url} L{leader}"), sc, progs: vec![prog.clone()], inputs: vec![inp], out_masks: vec![mask], leaders: vec![leader], mismatch: None });
+                v.push(Case { prop: "C17", key: format!("single fail={kind:?} url={url} L{leader}"), sc: sc.clone(), progs: vec![prog.clone()], inputs: vec![inp.clone()], out_masks: vec![mask.clone()], leaders: vec![leader], mismatch: None });
+                if url {
+                    // double fault: the error notification cannot be delivered either
+                    for which in 0..2 {
+                        let mut sc2 = sc.clone();
+                        sc2.fail_outputs = true;
+                        sc2.fail_rpc = Some((kind, which));
+                        v.push(Case { prop: "C17", key: format!("single fail={kind:?}#{which} dest-unreachable L{leader}"), sc: sc2, progs: vec![prog.clone()], inputs: vec![inp.clone()], out_masks: vec![mask.clone()], leaders: vec![leader], mismatch: None });
+                    }
+                }
             }
         }
     }
